@@ -1,14 +1,149 @@
-"""C07 — decided by the bounded real-code run of bounded/printers_real.py (see DESIGN.md)."""
+"""C07 — every output format decodes to the same derivation.
+
+Deductive part (PyVC, contracts/printers.py): the dependency column of conll.  `_resolve_dependencies.rec` is verified against its contract
+with the recursive calls replaced by that contract (structural induction over the tree view), `_resolve_dependencies` against the specification
+"one root, every other word attached to the head word its head flags imply, inside the span"; the tree view itself is checked against the real
+properties of depccg/tree.py.  Everything else of C07 is decided by the bounded real-code run of bounded/printers_real.py."""
+import json
 import time
+
+import z3
+
+from vc.sorts import CheckerError, get_world
+from vc.pyvc import Interp
+from vc import engine
+from vc.engine import verify_contract
+from contracts import cat as catc, printers as pr
 from props import c12
+
 PROP = 'C07'
+
+
+def setup():
+    w = get_world()
+    catc.bind_world(w)
+    table, impls, virtuals = catc.cat_contracts()
+    I = Interp(w, table)
+    pr.install_etree(I)
+    cs = [pr.ResolveRec(), pr.ResolveDependencies(), pr.XmlRec(), pr.XmlProcessTree()]
+    for c in cs:
+        I.contracts[c.name] = c
+    return w, I, cs
+
+
+def run_job(kind, key):
+    w, I, cs = setup()
+    if kind == 'contract':
+        c = [x for x in cs if x.name == key][0]
+        recs, npaths = verify_contract(I, c, PROP)
+        for r in recs:
+            r['witness'] = dict(function=c.name)
+        return dict(job=key, records=recs, paths=npaths, lib=sorted(I.used_lib))
+    if kind == 'view':
+        return dict(job=key, records=pr.tree_view_obligations(I, PROP) + pr.view_lemmas(PROP))
+    raise CheckerError(kind)
+
+
+REPLAY = r'''
+import itertools, json, sys
+from vc import trees as T
+from depccg.printer import conll
+Tree, Token, Category = T.Tree, T.Token, T.Category
+N = T.Category.parse('N')
+
+def shapes(n):
+    """all tree views with n words: ('L',) | ('U', c) | ('B', l, r, head_is_left); unary chains of length <= 1"""
+    if n == 1:
+        base = [('L',)]
+    else:
+        base = [('B', l, r, h) for k in range(1, n) for l in shapes(k) for r in shapes(n - k) for h in (True, False)]
+    return base + [('U', b) for b in base if b[0] != 'U']
+
+def build(v, counter=[0]):
+    if v[0] == 'L':
+        counter[0] += 1
+        return Tree.make_terminal(Token(word='w%d' % counter[0]), N)
+    if v[0] == 'U':
+        return Tree.make_unary(N, build(v[1]))
+    return Tree.make_binary(N, build(v[1]), build(v[2]), 'fa', '>', v[3])
+
+def nleaves(v):
+    return 1 if v[0] == 'L' else nleaves(v[1]) if v[0] == 'U' else nleaves(v[1]) + nleaves(v[2])
+
+def headpos(v):
+    if v[0] == 'L':
+        return 0
+    if v[0] == 'U':
+        return headpos(v[1])
+    return headpos(v[1]) if v[3] else nleaves(v[1]) + headpos(v[2])
+
+def dep(v, i):
+    if v[0] == 'L':
+        return -1
+    if v[0] == 'U':
+        return dep(v[1], i)
+    nl = nleaves(v[1])
+    if i < nl:
+        if i == headpos(v[1]):
+            return -1 if v[3] else nl + headpos(v[2])
+        return dep(v[1], i)
+    if i - nl == headpos(v[2]):
+        return headpos(v[1]) if v[3] else -1
+    return nl + dep(v[2], i - nl)
+
+for n in range(1, 5):
+    for v in shapes(n):
+        want = [-1 if i == headpos(v) else dep(v, i) for i in range(n)]
+        try:
+            got = list(conll._resolve_dependencies(build(v)))
+        except Exception as e:
+            got = 'raises %s: %s' % (type(e).__name__, e)
+        if got != want:
+            print(json.dumps(dict(reproduced=True, tree=repr(v), got=got, want=want)))
+            sys.exit(0)
+print(json.dumps(dict(reproduced=False)))
+'''
+
+
+def replay():
+    rc, out, err = engine.run_real(REPLAY, timeout=300, env_extra=dict(VERIF_REPO=engine.REPO))
+    try:
+        d = json.loads(out.strip().splitlines()[-1])
+    except Exception:
+        return dict(reproduced=False, stdout=out[-500:], stderr=err[-800:])
+    d['how'] = 'real _resolve_dependencies on every tree view with <= 4 words (both head directions, unary steps) against the spec functions nleaves / headpos / dep'
+    return d
 
 
 def main(tier='quick', seed=0):
     t0 = time.time()
+    jobs = [('contract', 'depccg/printer/conll.py::_resolve_dependencies.rec'), ('contract', 'depccg/printer/conll.py::_resolve_dependencies'),
+            ('contract', 'depccg/printer/xml.py::_process_tree.rec'), ('contract', 'depccg/printer/xml.py::_process_tree'), ('view', 'tree.py')]
+    results = engine.run_jobs('props.c07', jobs)
+    records, errors = [], []
+    for r in results:
+        records.extend(r.get('records', []))
+        if r.get('error'):
+            errors.append(f"{r['error']} (job {r['job']})")
+    if any(r['verdict'] == 'failed' and 'conll' in r['name'] for r in records):
+        rp = replay()
+        for r in records:
+            if r['verdict'] == 'failed' and 'conll' in r['name']:
+                r['replay'] = rp
     assumptions = [
-        'bounded stand-in only: run-time contract decode(encode(t)) = view(t) with independent spec decoders, and the repository readers applied to files the encoders wrote, on enumerated derivations (never counted as proved)',
+        'deductive part: the conll dependency column, and the element structure of C&C xml (`_process_tree`: one lf per word with start = its offset counted from 0 per tree, span 1, its category text and its token\'s attributes; '
+        'one rule element per inner node with its label and category text, children in order) as equality with the recursive spec encoding enc_xml(tree, 0). Tree view Leaf | Un | Bin(head_is_left) with the attribute meanings checked against the real tree.py properties on the three shapes Tree.__init__ admits; '
+        'python lists as z3 arrays with a length; the recursive calls of rec are replaced by its contract (structural induction: the induction principle is the meta-rule); '
+        'len([x for x in xs if p(x)]) is axiomatised as 0 / 1 / >= 2 matching elements; lemma nleaves-positive by structural induction',
+        'assumed contracts: lxml etree.Element / SubElement / set / append build the element they are told to (lxml is not importable under the verifier); Tree.tokens lists the tokens of the leaves in order; '
+        'the attribute copy `for k, v in token.items(): elem.set(k, v)` is recognised as a pattern and recorded as "attributes of token(tag)" (a token with a key named start / span / cat would overwrite the lf attribute: outside the model); '
+        'str(int) is injective',
+        'all other clauses (text layouts, category spellings, token attributes, span offsets, numbering) are decided by the BOUNDED stand-in: run-time contract decode(encode(t)) = view(t) with independent spec decoders, '
+        'and the repository readers applied to files the encoders wrote, on enumerated derivations (never counted as proved)',
         'lxml serialise/parse round trip preserves tags, attributes and order for XML-representable strings',
     ]
-    extra = dict(functions_under_contract=[], explanation='no contract-level proof was built for this property; the deciding evidence is the bounded run on the real encoders and readers')
-    return c12.finish_with(PROP, tier, seed, t0, [], [], extra, assumptions, ['printers_real.py'], level='exploration')
+    extra = dict(functions_under_contract=['depccg/printer/conll.py::_resolve_dependencies', 'depccg/printer/conll.py::_resolve_dependencies.rec',
+                                           'depccg/printer/xml.py::_process_tree', 'depccg/printer/xml.py::_process_tree.rec',
+                                           'depccg/tree.py::Tree.is_leaf / is_unary / child / left_child / right_child / head_is_left (view lemma)'],
+                 bounded_functions=['all encoders of depccg/printer', 'depccg/tools/reader.py', 'depccg/tools/ja/reader.py'])
+    return c12.finish_with(PROP, tier, seed, t0, records, errors, extra, assumptions, ['printers_real.py'], level='exploration')
